@@ -2,7 +2,8 @@ import Cactus.Lemmas.Final
 import Cactus.Lemmas.Complete
 import Cactus.Lemmas.Basic
 import Cactus.Lemmas.Orphan
-import Cactus.Props.C13   -- only for `runWith` (`run` with an explicit step budget)
+import Cactus.Lemmas.Shared.RunWith   -- `runWith` (`run` with an explicit step budget)
+import Cactus.Lemmas.Shared.OneStep   -- `Shared.rcDrop_last_handle` (also used by `Props/C07.lean`)
 import Cactus.Lemmas.Termination.Loop   -- the measure `State.work`, termination, the `makeMut` loop
 /-!
 # C03 — an orphaned adopted group is destroyed in full by the drop that orphans it
@@ -36,7 +37,9 @@ every run (corpus `d5_joint_orphan.ops`).  What does hold and is proved here:
   every step budget.
 Not proved (false): the group rule on the zero-count path, see D5 above; termination of the
 teardown for destructor scripts containing `makeMut`.
-`Cactus.Props.C13` is imported only for `runWith` (`run` with an explicit step budget).
+`runWith` (`run` with an explicit step budget) comes from `Cactus.Lemmas.Shared.RunWith`, and
+`C03_last_handle` is proved by the shared one-step lemma `Shared.rcDrop_last_handle`
+(`Cactus.Lemmas.Shared.OneStep`, also used by `Props/C07.lean`); no other property file is imported.
 -/
 namespace Cactus
 open State
@@ -64,14 +67,8 @@ value out and schedules its destructor in that very step (synchronously, never d
 theorem C03_last_handle (s : State) (o : Nat) (ob : Obj) (v : Val)
     (hc : s.cell o = some ob) (hs : ob.strong = .cnt 1) (hl : ob.links = some []) (hv : ob.value = some v) :
     (s.rcDrop o).stack = .dropVal v :: .finishSingle o :: s.stack
-    ∧ ((s.rcDrop o).heap[o]?).map (·.strong) = some .uninit := by
-  have hf := (cell_some_get s o ob hc).2
-  have hlt := cell_some_lt s o ob hc
-  unfold State.rcDrop
-  simp only [hc, hs, hl, List.isEmpty_nil, if_true]
-  unfold State.beginSingle
-  rw [cell_setObj_same s o ob _ hc]
-  simp [hf, hv, State.setObj, State.push, hlt]
+    ∧ ((s.rcDrop o).heap[o]?).map (·.strong) = some .uninit :=
+  Shared.rcDrop_last_handle s o ob v hc hs hl hv
 
 /-- the group rule on the trace path, graph part: when the orphan test passes, the objects that
 `drop_cycle` is given are exactly the objects reachable from the dropped one through recorded
